@@ -677,6 +677,39 @@ class Runner:
                                    {"k": "cm", "method": method, "e": e, "cells": [int(v) for v in m.reshape(-1)[:4]]})
             for name in spec.get("cmm", []):
                 self.cm_metric(method, res, name, X, scalar_in, idxs, smats, snaps)
+            # one-vs-all of the vectorised matrices: shape X + (2, 2, 2), entry [x] = one-vs-all of the matrix at x
+            ova = self.call(res.one_vs_all)
+            if ova[0] == "exc":
+                self.fail(method + ".one_vs_all", f"raises/{ova[1]}", f"one_vs_all() of matrices of shape {X}+(2,2) raised {ova[1]}: {ova[2]}")
+            else:
+                om = np.asarray(ova[1].matrix)
+                if tuple(om.shape) != X + (2, 2, 2):
+                    self.fail(method + ".one_vs_all", "shape", f"shape {om.shape} for matrices of shape {X}+(2,2)")
+                else:
+                    for idx in idxs:
+                        if idx in smats:
+                            o1 = self.call(smats[idx].one_vs_all)
+                            if o1[0] == "exc" or not elem_eq(om[idx], np.asarray(o1[1].matrix)):
+                                self.fail(method + ".one_vs_all", "elementwise", f"[{idx}]={om[idx].tolist()} but the scalar matrix gives "
+                                          f"{np.asarray(o1[1].matrix).tolist() if o1[0] == 'ok' else o1[1:]}")
+            # the same counts held as float64 (weighted counts; here halved, exactly): rates equal those of the integer
+            # matrices, and no rate query writes into the matrix it was given
+            if mat.size and spec.get("cmm"):
+                from score_analysis import ConfusionMatrix as _CM
+                fmat = np.asarray(mat, dtype=np.float64) * 0.5
+                fcm = self.call(lambda: _CM(matrix=fmat, binary=True))
+                if fcm[0] == "ok":
+                    fsnap = arr_snap(fmat)
+                    for name in [n_ for n_ in spec.get("cmm", []) if n_ not in CM_COUNTS and not n_.endswith("_ci")][:4] + ["tpr", "fnr"]:
+                        rf, ri = self.call(getattr(fcm[1], name)), self.call(getattr(res, name))
+                        if arr_snap(fmat) != fsnap or arr_snap(np.asarray(fcm[1].matrix)) != fsnap:
+                            self.fail(method + "." + name, "mutates-argument", f"{name}() of a float64 ConfusionMatrix changed the matrix "
+                                      f"it was built from: {np.asarray(fmat).reshape(-1).tolist()[:8]} (was {(np.asarray(mat).reshape(-1) * 0.5).tolist()[:8]})")
+                            break
+                        scale_free = name in ("tpr", "fnr", "tnr", "fpr", "topr", "tonr", "ppv", "npv", "fdr", "for_", "accuracy", "error_rate",
+                                              "tar", "frr", "trr", "far", "acceptance_rate", "rejection_rate")
+                        if scale_free and (rf[0] != ri[0] or (rf[0] == "ok" and not elem_eq(np.asarray(rf[1]), np.asarray(ri[1])))):
+                            self.fail(method + "." + name, "elementwise", f"{name}() of the halved float64 matrices differs from the integer ones")
             if arr_snap(mat) != msnap:
                 self.fail(method, "mutates-result", "ConfusionMatrix.matrix changed by its own metric methods")
             return
